@@ -513,3 +513,7 @@ mod tests {
         );
     }
 }
+
+/// Verification hooks: access to the crate-private fetcher for the external /verif harness.
+#[cfg(maidsafe_safe_network_verif)]
+pub mod verif {}
